@@ -148,6 +148,7 @@ RefCount(M, P, i) ==
 RaiseKind(s) == s   \* "" | exception name; "build:X" / "apply:X" on the symbolic route
 Raised(st) == st.ra # "" \/ st.rb # "" \/ st.rx # ""
 IsTimeout(x) == x \in {"RouteTimeout", "build:RouteTimeout", "apply:RouteTimeout", "eval:RouteTimeout", "observe:RouteTimeout"}
+DivZero(st) == st.ra = "ZeroDivisionError" \/ st.rx = "ZeroDivisionError"
 TimedOut(st) == IsTimeout(st.ra) \/ IsTimeout(st.rb) \/ IsTimeout(st.rx) \/ IsTimeout(st.re)
 
 CheckStep(v, st) ==
@@ -156,6 +157,8 @@ CheckStep(v, st) ==
   THEN [v EXCEPT !.outside = @ + (IF inside = "no" THEN 1 ELSE 0), !.undecided = @ + (IF inside = "undecided" THEN 1 ELSE 0)]
   ELSE IF TimedOut(st)
   THEN [v EXCEPT !.timeouts = @ + 1]      \* a route exceeded its CPU budget: no value to compare, not a verdict
+  ELSE IF DivZero(st)
+  THEN [v EXCEPT !.divzero = @ + 1]       \* the concrete route divides by zero: an excluded input (undefined result)
   ELSE IF Raised(st)
   THEN (IF st.ra # "" /\ st.rb # ""
         THEN [v EXCEPT !.bothraise = @ + 1]
@@ -184,7 +187,7 @@ Init == /\ TLCSet(7, ndJsonDeserialize(IOEnv.TRACE_FILE))
         /\ env = IF "steps" \in DOMAIN Traces[tid] THEN EnvOf(Traces[tid]) ELSE [regs |-> <<>>, mem |-> <<>>]
         /\ verdict = [lock |-> "ok", evl |-> "ok", exact |-> "ok", raise |-> "ok", ref |-> "ok",
                       cmp |-> 0, symB |-> 0, symA |-> 0, refd |-> 0, judged |-> 0,
-                      outside |-> 0, undecided |-> 0, bothraise |-> 0, dropped |-> 0, timeouts |-> 0]
+                      outside |-> 0, undecided |-> 0, bothraise |-> 0, dropped |-> 0, timeouts |-> 0, divzero |-> 0]
         /\ done = FALSE
 
 NSteps == IF "steps" \in DOMAIN T THEN Len(T.steps) ELSE 0
